@@ -383,3 +383,20 @@ def model_io_expr(t1, t2, thr, rep, pairs_tbl_coq, conv_tbl, rem, add, base):
     return "run_dio %s %s %s %s %s %s %s false false %s %s %s" % (
         D.coq_udiff_table(D.udiff_table(t1, t2)), D.coq_cfg(False, thr), "true" if rep else "false",
         pairs_tbl_coq, conv_tbl, coq_paths(rem), coq_paths(add), V.to_coq(t1), V.to_coq(t2), V.to_coq(base))
+
+
+def model_expr_hyp(t1, t2, zip_, thr, bidir, always, base, conv_tbl, rem, add, ignore_private=True):
+    """model_expr (payload + applied result) and the observed hypotheses (hyp_expr) in ONE Coq expression sharing
+    the diff and the delta: SL [payload; result; sx_hyp guardsb valid_ops orders_ok]"""
+    ops = D.coq_ops_table(D.opcode_table(t1, t2))
+    b = lambda x: "true" if x else "false"
+    return ("(let r := run_diff hatom_simple (tbl_udiff %s) (tbl_ops %s) no_paths no_paths %s %s %s in "
+            "let cv := tbl_conv %s in "
+            "let d := to_delta cv %s %s (tbl_ops %s) %s %s (fst r) (snd r) in "
+            "SL [sx_delta d; sx_result (apply cv (order_by %s fst) (order_by %s fst) d %s); "
+            "sx_hyp (guardsb %s %s %s %s %s) (ops_table_okb %s %s %s) (orders_okb (order_by %s fst) (order_by %s fst) d)])") % (
+        D.coq_udiff_table(D.udiff_table(t1, t2)), ops, D.coq_cfg(zip_, thr, ignore_private), V.to_coq(t1), V.to_coq(t2),
+        conv_tbl, b(bidir), b(always), ops, V.to_coq(t1), V.to_coq(t2),
+        coq_paths(rem), coq_paths(add), V.to_coq(base),
+        D.coq_cfg(zip_, thr, ignore_private), b(bidir), b(always), V.to_coq(t1), V.to_coq(t2),
+        V.to_coq(t1), V.to_coq(t2), ops, coq_paths(rem), coq_paths(add))
